@@ -207,6 +207,45 @@ theorem validate_stages {H : Hashes} {ag ag' : Agent} {pkt : Bytes} {v : Validat
                 right
                 exact ⟨i2, rfl, hval⟩
 
+theorem validateTail_not_unmatched {ag ag' : Agent} {pkt : Bytes} {h : Hdr} {f : Facts} {si : Option Nat}
+    {i2 info : MsgInfo} {u : Nat} {st : Status}
+    (ht : validateTail ag pkt h f si i2 u = .ok (st, ag', info)) : st ≠ .unmatchedResponse := by
+  unfold validateTail at ht
+  simp only at ht
+  split at ht
+  · have e := congrArg Prod.fst (Except.ok.inj ht); intro hst; rw [hst] at e; cases e
+  · split at ht
+    · cases ht
+    · split at ht
+      · cases ht
+      · split at ht
+        · have e := congrArg Prod.fst (Except.ok.inj ht)
+          intro hst; rw [hst] at e
+          simp only at e
+          split at e <;> cases e
+        · have e := congrArg Prod.fst (Except.ok.inj ht); intro hst; rw [hst] at e; cases e
+
+/-- **C04_unmatched_is_response.**  stun_agent_validate reports UNMATCHED_RESPONSE only for a message of class
+    response / error response (the assumption `hv` of the regenerated inbound skeleton, Props/C03Flow). -/
+theorem C04_unmatched_is_response (H : Hashes) (ag ag' : Agent) (pkt : Bytes) (v : Validater) (u : Nat)
+    (info : MsgInfo) (hval : validate H ag pkt v u = .ok (.unmatchedResponse, ag', info)) :
+    ∃ h, frameCheck ag pkt = .ok (.inr h) ∧ isResponse h = true := by
+  obtain ⟨h, hfc⟩ := validate_frame hval ⟨by decide, by decide, by decide⟩
+  refine ⟨h, hfc, ?_⟩
+  rcases validate_stages hval hfc with ⟨h1, _⟩ | ⟨si, f, _, _, h2⟩
+  · unfold matchResponse at h1
+    split at h1
+    · assumption
+    · cases h1
+  · exfalso
+    rcases h2 with ⟨_, h3, _⟩ | ⟨_, h3⟩
+    · cases h3
+    · rcases h3 with ⟨_, h4, _⟩ | ⟨key, _, h4⟩
+      · cases h4
+      · rcases h4 with ⟨i2, _, h5, _⟩ | ⟨i2, _, h5⟩
+        · cases h5
+        · exact validateTail_not_unmatched h5 rfl
+
 theorem findSent_some {sent : Array SavedId} {method : Nat} {id : Bytes} {i : Nat}
     (h : findSent sent method id = some i) :
     i < sent.size ∧ (sent.getD i {}).valid = true ∧ (sent.getD i {}).method = method ∧ (sent.getD i {}).id = id := by
